@@ -114,7 +114,15 @@ func (it *Interp) store(fr *frame, T types.Type, addr Value, v Value) {
 	it.storeAt(p, v)
 }
 
+// impure aborts an enclosing speculative (if-conversion) evaluation.
+func (it *Interp) impure(why string) {
+	if it.specDepth > 0 {
+		panic(specAbort{why, true})
+	}
+}
+
 func (it *Interp) storeAt(p *Value, v Value) {
+	it.impure("store")
 	switch v := v.(type) {
 	case Struct:
 		dst, ok := (*p).(Struct)
